@@ -12,7 +12,7 @@ from .. import core
 
 M64 = (1 << 64) - 1
 MAX_DEPTH = 16
-MISALIGNED = "4d"          # SysEnv.ST_MISALIGNED (77)
+MISALIGNED = "4d"          # (no longer produced: a misaligned load is UB in the model)
 
 
 def sh(v):
@@ -88,7 +88,26 @@ class Gen:
             return "P:%s:%s:%x:%s:%x:%s" % (sh(self.aspace()), sh(self.aspace(noaddr=0.06)),
                                             r.choice(self.pool) & ~0xfff, r.choice(["64", "64", "32"]),
                                             mask, ".".join("%x" % s for s in sizes) or "-")
-        if k < 0.8:
+        if k < 0.70:
+            # a page table of an architecture format (walked by Xlat/Step.v in the model)
+            fmt = r.choice([6, 6, 6, 3, 3, 3, 9, 10, 2, 1, 5, 13, 13, 4, 11, 7, 8, 0])
+            std = {6: [12, 9, 9, 9, 9], 3: [12, 9, 9, 9], 9: [16, 13, 13, 6], 10: [12, 9, 9, 9, 9],
+                   5: [12, 9, 9, 2], 13: [12, 9, 9, 9], 4: [12, 10, 10], 11: [12, 8, 12],
+                   7: [12, 8, 11, 11, 11], 8: [16, 12, 12, 4]}.get(fmt)
+            if std and r.random() < 0.08:
+                # more fields than the architecture has levels ("Too many paging levels")
+                sizes = std + [r.choice([2, 3, 9])] * r.randint(1, 3)
+            elif std and r.random() < 0.75:
+                sizes = std[:r.choice([len(std)] * 4 + [len(std) - 1, 2, 1])]
+            else:
+                nf = r.choice([0, 1, 2, 3, 3, 4, 5])
+                sizes = [r.choice([12, 12, 4, 8, 16, 3]) for _ in range(min(nf, 1))] + \
+                    [r.choice([4, 9, 9, 3, 2, 10]) for _ in range(max(0, nf - 1))]
+            mask = r.choice([0, 0, 0, 1 << 63, 0xfff0000000000000])
+            return "X:%s:%s:%x:%x:%x:%s" % (sh(r.choice([0, 1, 2])), sh(r.choice([0, 1, 2, 2, -1])),
+                                            r.choice(self.pool) & ~0xfff, mask, fmt,
+                                            ".".join("%x" % s for s in sizes) or "-")
+        if k < 0.84:
             n = r.randint(0, 3)
             eo = r.choice([0xfff, 0xfff, 0xffff, 7, M64, 0xffffffffffff])
             els = ["%x.%x" % (self.addr() & ~7, self.addr() & ~7) for _ in range(n)]
@@ -113,8 +132,14 @@ class Gen:
 
         def m_of(p):
             return (p + moff) & M64
-        nfields = r.choice([2, 2, 3])
-        fsz = [12] + [r.choice([4, 4, 5]) for _ in range(nfields - 1)]
+        fmt = r.choice(["pfn", "pfn", "x86_64", "x86_64", "aarch64", "aarch64"])
+        if fmt == "pfn":
+            nfields = r.choice([2, 2, 3])
+            fsz = [12] + [r.choice([4, 4, 5]) for _ in range(nfields - 1)]
+        elif fmt == "x86_64":
+            nfields, fsz = 5, [12, 9, 9, 9, 9]
+        else:
+            nfields, fsz = 5, [12, 9, 9, 9, 9]
         vbits = sum(fsz)
         tas = r.choice([0, 0, 1])                               # page table target space
         flag = r.choice([0, 1 << 63])
@@ -122,6 +147,13 @@ class Gen:
 
         def to_tas(p):
             return p if tas == 0 else m_of(p)
+
+        def entry(p, leaf, level):
+            if fmt == "pfn":
+                return (to_tas(p) >> 12) | flag
+            if fmt == "x86_64":
+                return to_tas(p) | (0xe3 if leaf and level > 1 else 0x63) | flag
+            return to_tas(p) | (1 if leaf and level > 1 else 3) | flag
         # page tables: allocate table pages from 0x20000 upwards, data pages below
         next_tbl = [0x20000]
 
@@ -131,20 +163,37 @@ class Gen:
             return a
         root_p = alloc_tbl()
         mapped = []                                             # (vaddr, kphys)
+        top = nfields - 1
 
         def fill(tbl_p, level, vbase):
             n = 1 << fsz[level]
-            for idx in r.sample(range(n), min(n, r.randint(1, 3))):
+            if level == top and fmt != "pfn":
+                n //= 2                                          # lower (canonical) half
+            cnt = r.randint(1, 3) if fmt == "pfn" else r.randint(1, 2)
+            for idx in r.sample(range(n), min(n, cnt)):
                 va = vbase | (idx << sum(fsz[:level]))
                 if level == 1:
                     pg = 0x1000 * r.randint(1, 0x1f)
-                    words[tbl_p + 8 * idx] = (to_tas(pg) >> 12) | flag
+                    words[tbl_p + 8 * idx] = entry(pg, True, 1)
                     mapped.append((va, pg))
-                else:
+                elif level == 2 and fmt != "pfn" and moff % 0x200000 == 0 and r.random() < 0.25:
+                    # a 2M block; bits 20:12 of a block entry are not address bits (PAT, nT, ...)
+                    blk = 0x200000 * r.randint(0, 3)
+                    words[tbl_p + 8 * idx] = entry(blk, True, 2) | r.choice([0, 0x1000, 0x11000])
+                    mapped.append((va + 0x1000 * r.randint(0, 0x1ff), blk))
+                elif next_tbl[0] < 0x2f000:
                     sub = alloc_tbl()
-                    words[tbl_p + 8 * idx] = (to_tas(sub) >> 12) | flag
+                    words[tbl_p + 8 * idx] = entry(sub, False, level)
                     fill(sub, level - 1, va)
-        fill(root_p, nfields - 1, 0)
+        fill(root_p, top, 0)
+        # an entry that points to a table the memory image does not have: reads of it fail
+        broken = []
+        free = [i for i in range((1 << fsz[top]) // (1 if fmt == "pfn" else 2))
+                if (root_p + 8 * i) not in words]
+        if free and top >= 2 and r.random() < 0.3:
+            bi = r.choice(free)
+            words[root_p + 8 * bi] = entry(0x2e000, False, top)
+            broken.append(bi << sum(fsz[:top]))
         root_as = r.choice([0, 1, 2, 2, tas])
         root = {0: root_p, 1: m_of(root_p), 2: (D + root_p) & M64}[root_as]
         toks = []
@@ -153,7 +202,11 @@ class Gen:
         toks += ["C:%x" % caps, "R:%x" % rcaps, "O:%s" % sh(0 if r.random() < 0.85 else -7),
                  "F:%s" % sh(r.choice([5, 5, 2, 0, 6]))]
         # methods: 0 = pgt, 2 = direct, 5 = rdirect, 6 = machphys->kphys, 7 = kphys->machphys
-        toks.append("T0=P:%s:%s:%x:64:%x:%s" % (sh(tas), sh(root_as), root, mask, ".".join("%x" % f for f in fsz)))
+        if fmt == "pfn":
+            toks.append("T0=P:%s:%s:%x:64:%x:%s" % (sh(tas), sh(root_as), root, mask, ".".join("%x" % f for f in fsz)))
+        else:
+            toks.append("T0=X:%s:%s:%x:%x:%x:%s" % (sh(tas), sh(root_as), root, mask,
+                                                    6 if fmt == "x86_64" else 3, ".".join("%x" % f for f in fsz)))
         toks.append("T2=L:0:%x" % ((-D) & M64))
         toks.append("T5=L:2:%x" % D)
         kind = r.choice(["lin", "lin", "lookup", "memarr", "memarr"])
@@ -200,6 +253,11 @@ class Gen:
             else:
                 toks.append("T%x=%s" % (r.randint(8, 15), self.meth()))
         # queries: mapped virtual addresses, direct-map addresses, physical addresses
+        if broken and mapped:
+            # a successful walk (fills the read cache), then the same failing read twice
+            toks.append("Q:2:%x" % (mapped[0][0] + 8))
+            toks.append("Q:2:%x" % (broken[0] + 0x1000))
+            toks.append("Q:2:%x" % (broken[0] + 0x2008))
         for _ in range(nq):
           for attempt in range(4):
             k = r.random()
@@ -224,9 +282,27 @@ class Gen:
         return toks
 
     def case(self, nq):
-        if self.r.random() < 0.45:
-            return self.coherent(nq)
-        return self.random_case(nq)
+        r = self.r
+        toks = self.coherent(nq) if r.random() < 0.45 else self.random_case(nq)
+        qs = [t for t in toks if is_query(t)]
+        toks = [t for t in toks if not is_query(t)]
+        k = r.random()
+        if k < 0.10:
+            # a get-page callback that serves one address space by converting the requested
+            # address to another one through the library (re-entrant, as kdumpfile's)
+            a = r.choice([0, 1, 2])
+            b = r.choice([x for x in (0, 1, 2) if x != a])
+            toks.append("B:%x:%x" % (a, b))
+            rc = [i for i, t in enumerate(toks) if t.startswith("R:")]
+            if rc:
+                toks[rc[0]] = "R:%x" % (int(toks[rc[0]][2:], 16) | (1 << a))
+        elif k < 0.35:
+            # some pages are reported (and stored) big-endian
+            pgs = sorted({(t.split(":")[1], int(t.split(":")[2], 16) & ~0xfff) for t in toks if t[0] in "GW"})
+            for (a, pg) in pgs:
+                if r.random() < 0.4:
+                    toks.insert(0, "E:%s:%x" % (a, pg))
+        return toks + qs
 
     def random_case(self, nq):
         r = self.r
@@ -324,6 +400,12 @@ def filter_queries(toks, mout):
     """Drop the queries the model places outside the domain (UB, misaligned read)."""
     outs = mout.split(";") if mout else []
     qs = [t for t in toks if is_query(t)]
+    reentrant = any(t.startswith("B:") for t in toks)
+    if reentrant and any(o in ("UB", "FUEL") or o.startswith("st=" + MISALIGNED + " ") or o.startswith("EXC")
+                         for o in outs):
+        # with a re-entrant callback the cache contents matter: a query outside the domain
+        # takes the whole case with it
+        return [t for t in toks if not is_query(t)], [], len(qs)
     keep_t, keep_o = [], []
     dropped = 0
     for t, o in zip(qs, outs):
@@ -427,7 +509,8 @@ def evaluate(run, exe, cases, timeout=None):
     if crashes:
         run.count("impl-abnormal-exit", len(crashes))
     sl = ["%s | %s" % (l, io) for l, io in zip(lines, impl)]
-    idx = [i for i, io in enumerate(impl) if not io.startswith("CRASH") and io != "NOT-RUN"]
+    idx = [i for i, io in enumerate(impl) if not io.startswith("CRASH") and io != "NOT-RUN"
+           and any(is_query(t) for t in fcases[i])]
     scf = run.casefile("sysop-spec.txt", [sl[i] for i in idx])
     sres = core.run_model("sysop-spec", scf)
     spec = ["-"] * len(impl)
@@ -461,6 +544,12 @@ def report(run, exe, cases, res):
         for t in toks:
             if t[0] == "T":
                 run.count("meth-" + t[t.index("=") + 1])
+                if t[t.index("=") + 1] == "X":
+                    run.count("pte-format-" + t.split(":")[5])
+        if any(t.startswith("B:") for t in toks):
+            run.count("cases-reentrant-callback")
+        if any(t.startswith("E:") for t in toks):
+            run.count("cases-big-endian-pages")
         if i < 3:
             run.sample({"case": canon[:400], "impl": io[:300]})
         if io == "NOT-RUN":
@@ -495,7 +584,8 @@ def report(run, exe, cases, res):
                     else "no answer within the time limit" if crash[0] == "timeout" else "crash")
             run.violation("impl", "addrxlat_op/addrxlat_fulladdr_conv aborts (%s, exit %s) on system: %s"
                           % (what, crash[0], " ".join(small)[:600]), replay, found_input=True,
-                          signature="sysop crash %s %s" % (what, crash[1][-200:]))
+                          signature="sysop crash %s %s" % (what, " ".join(
+                              l for l in crash[1].split("\n") if l.startswith("SUMMARY:"))[:200] or crash[1][-200:]))
         elif sv:
             run.violation("spec", "sys.c contradicts the conversion spec: %s; system: %s"
                           % (sv[0], " ".join(small)[:600]), replay, found_input=True,
